@@ -167,6 +167,11 @@ def gen_scenario(scen: Choices, cls, cfg):
         scen.end(b_)
     if not op_list:
         op_list = [ops.gen_op(Choices(replay=[]), family, ds)]
+    if st.get("preempt") and len(ds["cols"]) > 1:
+        # pre-emptive pool model: several value columns = several tasks whose bodies can overlap
+        for op_ in op_list:
+            if len(op_.get("cols", ())) == 1 and not isinstance(op_.get("funcs"), list) and op_["op"] not in ("ratio", "subset_ratio", "density", "crosstab", "value_counts") and scen.chance(2, 3):
+                op_["cols"] = list(range(len(ds["cols"])))
     fault = gen.gen_fault(scen, stmt=True) if cfg.get("fault_mode") else None
     # shared-object arm: the operations of the run are applied in sequence to ONE grouping, under
     # the baseline and under the strategy alike (a dependence on the strategy that needs an earlier
